@@ -221,7 +221,8 @@ Qed.
 Print Assumptions C20_chained_accepted_pinned_refuted.
 
 (** ** 4. "... and the serialised module is accepted by the checker".
-    FULL statement (not proved here):
+    FULL statement (proved below as C20_module_accepted, section 4b, through PTerm's C02 theorem; the
+    two partial results are kept because they do not depend on the PTerm component):
       from_hints guards_sound S hs = Some m ->
       ML.Machine.verify (serialise_gamma m) (serialise_claims m) (serialise_proofs m) = accept.
     It needs the model of SerializingInterpreter/ProofExp.execute_full (component M4, another
